@@ -8,13 +8,18 @@ export VERIF_ROOT="$PWD"
 export REPO="${REPO:-/repo}"
 mkdir -p bin evidence replays .work
 # The checks compile thousands of generated packages; every distinct /repo state adds a few
-# GiB to Go's build cache. Keep the disk bounded: start from a cold cache beyond 12 GiB
+# GiB to Go's build cache. Keep the disk bounded: start from a cold cache beyond 30 GiB
 # (costs ~20 s of rebuilding on the next run, nothing else).
+# Cleaning the cache under another check that is compiling breaks that check's build, so every run
+# holds a shared lock for its whole duration (fd 9 is inherited by the controller) and the cache is
+# only cleaned by a run that gets the lock exclusively, i.e. when no other check is running.
 cache_dir="$(go env GOCACHE 2>/dev/null)"
+exec 9>"${cache_dir:-.work/cache}.verif.lock" 2>/dev/null || exec 9>.work/.cache.lock
 if [ -n "$cache_dir" ] && [ -d "$cache_dir" ]; then
   cache_mb=$(timeout 20 du -sm "$cache_dir" 2>/dev/null | cut -f1)
-  if [ -n "${cache_mb:-}" ] && [ "$cache_mb" -gt 30720 ]; then go clean -cache >/dev/null 2>&1; fi
+  if [ -n "${cache_mb:-}" ] && [ "$cache_mb" -gt 30720 ] && flock -x -n 9; then go clean -cache >/dev/null 2>&1; fi
 fi
+flock -s 9
 # stale scratch directories of killed runs
 find .work -mindepth 1 -maxdepth 1 -type d -mmin +120 -exec rm -rf {} + 2>/dev/null
 (cd harness && go build -o ../bin/vcheck ./cmd/vcheck) || { echo "BUILD-FAILED: controller" >&2; exit 2; }
